@@ -5,10 +5,12 @@ from vf.xh import Ob
 PREAMBLE = '''\
 import sys
 from vf import skel as _sk
-from checks.C18 import total_ok, mut_ok, deep_ok, ALPH, SCAFFOLDS, PROGRAMS
+from checks.C18 import total_ok, mut_ok, deep_ok, ALPH, ALPH3, SCAFFOLDS, PROGRAMS
 '''
 
 ALPH = "()[]{}\"\\;#'`~@^:.,| \n\ta1_-*!éfbr /=<x0N\r"
+
+ALPH3 = "()[]{}\"\\;#'~:f x\n"   # structural characters: one more character of depth in the thorough tier
 
 SCAFFOLDS = ["{h}", "({h})", "[{h}]", "{{{h}}}", "#{{{h}}}", "#({h})", "\"{h}\"", "f\"{h}\"", "f\"{{{h}}}\"", "f\"{{x {h}}}\"", "f\"{{x :{h}}}\"", "#[[{h}]]", "#[a[{h}]a]",
              "#[f[{h}]f]", "'{h}", "`{h}", "~{h}", "~@{h}", "#*{h}", "#**{h}", "#^{h} x", "#^ x {h}", "#_{h} y", ";{h}\nx", "(a {h} b)", "#{h}", ":{h}", "a.{h}", ".{h}", "1{h}", "b\"{h}\"",
@@ -103,15 +105,22 @@ def finding_key(ob, rec):
 
 def spec(tier, seed):
     obs = []
-    maxlen = 2 if tier == "quick" else 3
+    maxlen = 2
     for si, sc in enumerate(SCAFFOLDS):
         if si == 0:
             # whole input: partition by first character
-            obs += strsym.string_box_obs("w", "total_ok(0, {s})", "ALPH", ALPH, maxlen + 1 if tier == "thorough" else maxlen + 1, "whole-input",
+            obs += strsym.string_box_obs("w", "total_ok(0, {s})", "ALPH", ALPH, maxlen + 1, "whole-input",
                                          "whole input starting with {first}, length <= {n} over {alph!r}")
+            if tier == "thorough":
+                obs += strsym.string_box_obs("W", "total_ok(0, {s})", "ALPH3", ALPH3, maxlen + 2, "whole-input",
+                                             "whole input starting with {first}, length <= {n} over {alph!r}")
             continue
         obs += strsym.string_box_obs("s%d_" % si, "total_ok(%d, {s})" % si, "ALPH", ALPH, maxlen, "scaffold", "scaffold " + repr(sc).replace("{", "{{").replace("}", "}}") + " with hole of length <= {n} over {alph!r}",
                                      fixed_first=False)
+        if tier == "thorough":
+            # one character more over the structural sub-alphabet (the full alphabet at this length is 74088 texts per scaffold)
+            obs += strsym.string_box_obs("S%d_" % si, "total_ok(%d, {s})" % si, "ALPH3", ALPH3, maxlen + 1, "scaffold", "scaffold " + repr(sc).replace("{", "{{").replace("}", "}}") + " with hole of length <= {n} over {alph!r}",
+                                         fixed_first=False)
     for pi, p in enumerate(PROGRAMS):
         fn = "m%d" % pi
         L = ["def %s(pos: int, op: int, ci: int) -> bool:" % fn, '    """', "    post: _", '    """',
@@ -132,7 +141,7 @@ def spec(tier, seed):
         "grade": "R/D (one concrete text per path; reader call untraced, 5 s watchdog per text for the termination clause)",
         "functions_encoded": ["hy.read_many -> hy.reader.hy_reader.HyReader.parse / try_parse_one_form and every reader_for handler", "hy.reader.reader.Reader (getc, peekc, slurp_space, read_ident, chars)",
                               "hy.reader.exceptions"],
-        "bounds": "whole inputs of length 1..%d over the %d-character alphabet %r; %d scaffolds %r with a hole of length 0..%d; single-character delete/insert/replace mutations at every position of "
+        "bounds": "(thorough: additionally whole inputs of length <= 4 and holes of length <= 3 over the structural sub-alphabet " + repr(ALPH3) + ") whole inputs of length 1..%d over the %d-character alphabet %r; %d scaffolds %r with a hole of length 0..%d; single-character delete/insert/replace mutations at every position of "
                   "%d valid programs; %d deeply nested or long inputs (format specs nested 24 deep, f-strings in fields 13 deep, 60 parens, CRLF sources with a late error, ...), each under a 5 s watchdog" % (
                       maxlen + 1, len(ALPH), ALPH, len(SCAFFOLDS) - 1, SCAFFOLDS[1:], maxlen, len(PROGRAMS), len(deep_texts())),
         "outside": "longer texts; characters outside the alphabet (in particular 'every code point'); reader macros defined by the program",
